@@ -385,6 +385,7 @@ Proof.
   destruct (pipe_fold_inv c E steps {| p_rest := c; p_start := 0; p_line := 0 |} 0 0) as [I S];
     try assumption; try lia.
   - repeat split; cbn; lia.
+  - cbn; lia.
   - unfold pipe_run. repeat split; try assumption; lia.
 Qed.
 
